@@ -1,15 +1,16 @@
 /-
-The invariants of the inline engine of `Spec/NoCtlC.lean` (inline links and images with SIMPLE regions: `AdjC true` in
+The invariants of the inline engine of `Spec/NoCtlC.lean` (inline links and images with SIMPLE regions: `AdjCA true` in
 place of `Adj3`) over the generalised token grammar of `Spec/F/NoCtl.lean` (foreign tokens: the two tokens of the
 footnotes extension and the live raw-HTML placeholders), in the namespace `MdVerif.NoCtlF`: the `C` twins of the
 declarations of `Spec/F/NoCtlB.lean` (`code` texts `WFO false 0`, `BtSafe` relative to foreign tokens).
-The regions themselves (`destChar`, `altChar`, `RegionsOK`, `AdjC`, `cutOK`, `C10DomainC`) do not depend on the grammar
+The regions themselves (`destChar`, `altChar`, `RegionsOK`, `AdjCA`, `cutOK`, `C10DomainC`) do not depend on the grammar
 and are used from `Spec/NoCtlC.lean`: a foreign token starts with STX, which `destChar`/`altChar` exclude, so a region
 never contains a token.
 Nothing here is used by the executable model of the code.  Core Lean only.
 -/
 import MdVerif.Spec.NoCtlC
 import MdVerif.Spec.F.NoCtlB
+import MdVerif.Spec.F.RegionsAmp
 
 namespace MdVerif.NoCtlF
 variable [HtmlBound]
@@ -20,11 +21,11 @@ open MdVerif.NoCtl hiding Clean CleanB DNode EscOK FNode FoundOK HISpec HISpecB 
 
 /-- a string of a stashed element -/
 def StrC (k : Nat) (t : Option Str) : Prop :=
-  WF true k (t.getD []) ∧ DomB (t.getD []) ∧ AdjC true (t.getD []) ∧ BtDone (t.getD [])
+  WF true k (t.getD []) ∧ DomA (t.getD []) ∧ AdjCA true (t.getD []) ∧ BtDone (t.getD [])
 
 /-- a string of the tree -/
 def StrTC (k : Nat) (t : Option Str) : Prop :=
-  WF true k (t.getD []) ∧ DomB (t.getD []) ∧ AdjC true (t.getD []) ∧ BtSafe (t.getD [])
+  WF true k (t.getD []) ∧ DomA (t.getD []) ∧ AdjCA true (t.getD []) ∧ BtSafe (t.getD [])
 
 /-- an element made by a pattern (in the stash, or below a stashed element); a `code` element is a leaf with an atomic
     text made of ordinary characters and foreign tokens -/
@@ -34,7 +35,7 @@ def SNodeC (k : Nat) (n : Node) : Prop :=
    else n.textAtomic = false ∧ StrC k n.text)
 
 def ItemOKC (i : Nat) : StashItem → Prop
-  | .str s => WF true 0 s ∧ DomB s ∧ SepOK3 s
+  | .str s => WF true 0 s ∧ DomA s ∧ SepOK3 s ∧ HeadStop s
   | .node n => n.Forall (SNodeC i) ∧ n.tail = none
 
 /-- `ids_bounded` for the stash -/
@@ -49,7 +50,7 @@ def WNodeC (k : Nat) (n : Node) : Prop :=
 /-- the contract of `handleInline` on a whole text -/
 def HISpecC (cfg : Cfg) : Prop :=
   ∀ (data : Str) (st : St) (d : Str) (st' : St), StrTC st.stash.length (some data) → StOKC st.stash →
-    handleInlineTop cfg data st = some (d, st') →
-    StrC st'.stash.length (some d) ∧ StOKC st'.stash ∧ st.stash.length ≤ st'.stash.length ∧ st'.html = st.html
+    handleInlineTop cfg data st = some (d, st') → st'.html.length ≤ HtmlBound.h →
+    StrC st'.stash.length (some d) ∧ StOKC st'.stash ∧ st.stash.length ≤ st'.stash.length ∧ HtmlOK st'.html st.html
 
 end MdVerif.NoCtlF
